@@ -281,8 +281,31 @@ func genNodesCase(c *Ctx) {
 			}
 		}
 		sort.Strings(tl)
+		// what the model computes the score from: capacity, allocated, occupied (and the real available for comparison),
+		// the policy in force and its resource weights (integral)
+		keys := []map[string]interface{}{}
+		for _, id := range reg {
+			n := nodes[id]
+			keys = append(keys, map[string]interface{}{"id": id, "cap": resOrEmpty(n.GetCapacity()), "allocated": resOrEmpty(n.GetAllocatedResource()),
+				"occupied": resOrEmpty(n.GetOccupiedResource()), "avail": resOrEmpty(n.GetAvailableResource())})
+		}
+		nsp := nc.GetNodeSortingPolicy()
+		wm := nsp.ResourceWeights()
+		wk := []string{}
+		for k := range wm {
+			wk = append(wk, k)
+		}
+		sort.Strings(wk)
+		weights := [][]interface{}{}
+		for _, k := range wk {
+			if wm[k] != float64(int64(wm[k])) {
+				panic("non integral weight")
+			}
+			weights = append(weights, []interface{}{k, int64(wm[k])})
+		}
 		c.emit(map[string]interface{}{"c": "sort", "kind": "nodes", "op": op, "registered": reg, "full": iterIDs(nc.GetFullNodeIterator()),
-			"unreserved": iterIDs(nc.GetNodeIterator()), "reserved": res, "ranks": ranks, "tainted": tl})
+			"unreserved": iterIDs(nc.GetNodeIterator()), "reserved": res, "ranks": ranks, "tainted": tl,
+			"nodes": keys, "policy": nsp.PolicyType().String(), "weights": weights})
 	}
 	nops := 5 + c.pick(30)
 	for i := 0; i < nops; i++ {
@@ -297,7 +320,11 @@ func genNodesCase(c *Ctx) {
 			if len(ids) < 6 {
 				id := fmt.Sprintf("n%d", len(ids)+1+c.pick(3))
 				if nodes[id] == nil {
-					n := objects.NewNode(&si.NodeInfo{NodeID: id, SchedulableResource: resources.NewResourceFromMap(map[string]resources.Quantity{"vcore": resources.Quantity(10 + c.pick(20)), "memory": resources.Quantity(10 + c.pick(20))}).ToProto()})
+					capacity := resources.NewResourceFromMap(map[string]resources.Quantity{"vcore": resources.Quantity(10 + c.pick(20)), "memory": resources.Quantity(10 + c.pick(20))})
+					if c.chance(0.3) {
+						capacity.Resources["gpu"] = resources.Quantity(2 + c.pick(7))
+					}
+					n := objects.NewNode(&si.NodeInfo{NodeID: id, SchedulableResource: capacity.ToProto()})
 					if nc.AddNode(n) == nil {
 						nodes[id] = n
 						allocs[id] = map[string]*objects.Allocation{}
@@ -312,6 +339,45 @@ func genNodesCase(c *Ctx) {
 			delete(reserved, id)
 			delete(tainted, id)
 			emit("remove")
+		case p < 40:
+			// exhaust one resource type exactly (the available entry is pruned away), take a part of the others
+			id := ids[c.pick(len(ids))]
+			avail := nodes[id].GetAvailableResource()
+			types := []string{}
+			for k, v := range avail.Resources {
+				if v > 0 {
+					types = append(types, k)
+				}
+			}
+			sort.Strings(types)
+			if len(types) == 0 {
+				continue
+			}
+			full := types[c.pick(len(types))]
+			r := resources.NewResource()
+			for _, k := range types {
+				if k == full {
+					r.Resources[k] = avail.Resources[k]
+				} else if c.chance(0.5) {
+					r.Resources[k] = resources.Quantity(c.pick(int(avail.Resources[k]) + 1))
+				}
+			}
+			seq++
+			foreign := c.chance(0.2)
+			if foreign {
+				a := newAlloc(fmt.Sprintf("f%d", seq), "", id, r, true, false, "")
+				nodes[id].AddAllocation(a)
+				allocs[id][a.GetAllocationKey()] = a
+				tainted[id] = true
+				emit("foreign-exhaust")
+			} else {
+				a := newAlloc(fmt.Sprintf("a%d", seq), "app-1", id, r, false, false, "")
+				if nodes[id].TryAddAllocation(a) {
+					allocs[id][a.GetAllocationKey()] = a
+					delete(tainted, id)
+				}
+				emit("exhaust")
+			}
 		case p < 55:
 			id := ids[c.pick(len(ids))]
 			seq++
@@ -380,7 +446,19 @@ func genNodesCase(c *Ctx) {
 			emit("reserve")
 		default:
 			pol := []string{"fair", "binpacking"}[c.pick(2)]
-			nc.SetNodeSortingPolicy(objects.NewNodeSortingPolicy(pol, nil))
+			// integral weights, at most two types with a weight other than zero (a two-term float sum does not depend on the map order)
+			var w map[string]float64
+			switch c.pick(6) {
+			case 0:
+				w = map[string]float64{"vcore": 2, "memory": 1}
+			case 1:
+				w = map[string]float64{"vcore": 1, "memory": 3}
+			case 2:
+				w = map[string]float64{"vcore": 1, "memory": 0, "gpu": 2}
+			case 3:
+				w = map[string]float64{"gpu": 1, "memory": 1}
+			}
+			nc.SetNodeSortingPolicy(objects.NewNodeSortingPolicy(pol, w))
 			tainted = map[string]bool{}
 			emit("policy-" + pol)
 		}
